@@ -233,7 +233,8 @@ func (self *Analyzer) identExpression(node pAst.IdentExpression) ast.AnalyzedIde
 		}
 
 		// only mark the function as `used` if the usage originates from another function
-		if self.currentModule.CurrentFunction.FnType.Kind() == normalFunctionKind {
+		// (a function can also be referenced by a global initializer, outside of any function)
+		if self.currentModule.CurrentFunction != nil && self.currentModule.CurrentFunction.FnType.Kind() == normalFunctionKind {
 			currFn := self.currentModule.CurrentFunction.FnType.(normalFunction)
 			if fn.FnType.Kind() == normalFunctionKind {
 				toBeCalled := fn.FnType.(normalFunction)
